@@ -90,7 +90,11 @@ def replay(repro: dict):
     conf = _conf_from_json(repro["conf"])
     sconf = _conf_from_json(repro.get("sconf"))
     ledger = _ledger_from_json(repro["ledger"])
-    _, bad, _ = check_delivery(repro["entry"], repro["ser"], conf, sconf, ledger, repro.get("any", False))
+    W.COMPANION = (repro["companion"], conf.build()) if repro.get("companion") else None
+    try:
+        _, bad, _ = check_delivery(repro["entry"], repro["ser"], conf, sconf, ledger, repro.get("any", False))
+    finally:
+        W.COMPANION = None
     return bad
 
 
@@ -251,6 +255,9 @@ def run(rng: Rng, tier: str, index: int) -> RunResult:
         sc = sconf if use_sconf == "same" else use_sconf
         ents = live if thorough else [live[ecount % len(live)]]
         ecount += 1
+        # every third attack on a compact token: the key is resolved by a callable that itself opens the *original* token through
+        # the same API first (a key store that unwraps its keys with joserfc); each call owns its message state
+        W.COMPANION = (A, c.build()) if isinstance(A, str) and ecount % 3 == 0 else None
         for e in ents:
             acc, bad, r = check_delivery(e, ser2, c, sc, ledger, any_recipient)
             res.case(index, kind, desc, e, any_recipient)
@@ -261,6 +268,7 @@ def run(rng: Rng, tier: str, index: int) -> RunResult:
             for sig, what in bad:
                 res.violation(ID, sig, "%s [fault: %s %s]" % (what, kind, desc),
                               _repro(e, ser2, c, sc, ledger, [kind + " " + desc], any_recipient))
+        W.COMPANION = None
 
     for kind, desc, fn in singles:
         out = F.apply(A, [fn])
@@ -333,4 +341,5 @@ def run(rng: Rng, tier: str, index: int) -> RunResult:
 
 def _repro(entry, ser, conf, sconf, ledger, faults, any_recipient=False) -> dict:
     return {"entry": entry, "ser": ser, "conf": _conf_json(conf), "sconf": _conf_json(sconf) if sconf else None,
-            "ledger": _ledger_json(ledger), "faults": faults, "any": any_recipient}
+            "ledger": _ledger_json(ledger), "faults": faults, "any": any_recipient,
+            "companion": W.COMPANION[0] if W.COMPANION is not None else None}
